@@ -231,7 +231,7 @@ def execute(run, prop, shard):
                 oo = runner.run_program(q, opts={"reexport_every": 0})
                 return any(g.kind == f0.kind and g.exc == f0.exc and g.backend == f0.backend for g in oo.findings)
 
-            run.finding(f, prog, owned=own, reshrink=still, ctx={"ref": out.ref_env.get(f.backend)})
+            run.finding(f, prog, owned=own, reshrink=still, ctx={"ref": out.ref_env.get(f.backend), "real": out.real_env.get(f.backend if f.backend in out.real_env else "pol")})
     run.inconclusive_if(run.counters["probes_judged"] < n, "not every operator table reached the REF oracle on both backends")
 
 
